@@ -81,6 +81,20 @@ Round(d, s) == IF s = Z THEN Z
                         c == Add(f, AbsN(s))
                     IN  IF Lt(Sub(d, f), Sub(c, d)) THEN Clamp(f) ELSE Clamp(c)
 
+(* Where the statement of C14 leaves room: when the floor itself is below the minimum duration  *)
+(* (the value lies within one step of the bound) "floor plus |s|" and "the least multiple       *)
+(* strictly greater" are different numbers, and "the nearer of the two" depends on whether the  *)
+(* two are taken before or after saturation.  Both readings are admitted there, nowhere else.   *)
+CeilSet(d, s) ==
+  IF s = Z THEN {Z}
+  ELSE {Ceil(d, s)} \cup (IF Lt(FloorRaw(d, s), MinV) THEN {Clamp(Add(MinV, AbsN(s)))} ELSE {})
+Nearer(d, f, c) == IF Lt(Sub(d, f), AbsN(Sub(c, d))) THEN f ELSE c
+RoundSet(d, s) ==
+  IF s = Z THEN {Z}
+  ELSE {Round(d, s)} \cup
+       (IF Lt(FloorRaw(d, s), MinV) \/ Lt(MaxV, Add(FloorRaw(d, s), AbsN(s)))
+        THEN {Nearer(d, Floor(d, s), c) : c \in CeilSet(d, s)} ELSE {})
+
 (* building from an integer count of a unit (1..9) *)
 FromUnit(q, u) == Clamp(Mul(q, U[u]))
 
@@ -101,6 +115,23 @@ ComposeMag(dd, hh, mi, ss, ms, us, ns) ==
 Compose(sign, dd, hh, mi, ss, ms, us, ns) ==
   LET m == Clamp(ComposeMag(dd, hh, mi, ss, ms, us, ns))
   IN  IF sign < 0 THEN Clamp(NegN(m)) ELSE m
+
+-----------------------------------------------------------------------------
+(* KNOWN DEVIATION F1 (known_findings.json): what the implementation computes, not what the     *)
+(* properties require.  Duration::total_nanoseconds() SUBTRACTS the nanosecond field when the   *)
+(* century field is below -1; tests/duration.rs::duration_floor_ceil_round pins that behaviour  *)
+(* ((MIN + 10 s).floor(10 s) == MIN), so it cannot be repaired without editing the suite.       *)
+(* Everything built on that accessor inherits the wrong count for such operands.  These         *)
+(* operators are used ONLY by the Dev_F1 actions of the trace specification.                    *)
+F1Total(v) == LET p == Parts(v) IN IF p[1] < -1 THEN Sub(Mul(NPC, N(p[1])), p[2]) ELSE v
+F1Class(v) == LET p == Parts(v) IN p[1] < -1 /\ p[2] # Z
+F1MulI(a, q)  == Clamp(Mul(F1Total(a), F1Total(Clamp(q))))
+F1DivI(a, q)  == Clamp(QuotT(F1Total(a), F1Total(Clamp(q))))
+F1Floor(a, s) == IF F1Total(s) = Z THEN Z
+                 ELSE Clamp(Sub(F1Total(a), ModF(F1Total(a), AbsN(F1Total(s)))))
+F1Ceil(a, s)  == Clamp(Add(F1Total(F1Floor(a, s)), AbsN(s)))
+F1Round(a, s) == LET f == F1Floor(a, s)  c == F1Ceil(a, s)
+                 IN  IF Lt(DSub(a, f), DAbs(DSub(c, a))) THEN f ELSE c
 
 (* 64-bit accessors; I64MIN/I64MAX are supplied by the instantiating module *)
 Fits(v, lo, hi) == Le(lo, v) /\ Le(v, hi)
